@@ -20,3 +20,8 @@ Proof.
     + apply N.eqb_neq in E2. cbn [exec fold_left]. rewrite (fail_no_change s o rv E E2). apply IH.
   - cbn [exec fold_left]. apply IH.
 Qed.
+
+(* the model is a function of the operation list (C20: agreement of two implementations through the model) *)
+Theorem model_is_a_function : forall (ops : list op) (r1 r2 : list res),
+  r1 = run init_state ops -> r2 = run init_state ops -> r1 = r2.
+Proof. intros ops r1 r2 H1 H2. rewrite H1, H2. reflexivity. Qed.
